@@ -1,16 +1,20 @@
 import FeatModel.Lemmas.C12Halo
 import FeatModel.Lemmas.C12Parti
+import FeatModel.Lemmas.C12RefineCover
+import FeatModel.Lemmas.C12Protocol
+import FeatModel.Lemmas.C12Split
 /-!
 # C12 — partitions cover each cell once; neighbouring patches agree on their interface
 
-All theorems are about the functions of `FeatModel.Model.Partition` that `drv_c12` executes against the real
-`RootMeshNode::extract_patch` / `Parti2Lvl` (correspondence stream of `checks/props/c12.py`), for meshes and
-partitions of every size.  Hypotheses are the decidable predicates `Mesh.consistent`, `isPartition`, `Graph.wf`
-(evaluated on every generated input by the `hypotheses` stream).
+All theorems are about the functions of `FeatModel.Model.Partition`, `PartitionRefine`, `PartitionSplit` that
+`drv_c12` executes against the real `RootMeshNode::extract_patch` / `refine_unique` / `PatchHaloSplitter` /
+`Parti2Lvl` (correspondence streams of `checks/props/c12.py`), for meshes and partitions of every size.  Hypotheses are
+the decidable predicates `Mesh.consistent`, `isPartition`, `Graph.wf` (evaluated on every generated input by the
+`hypotheses` stream).  The refinement model is C10's (`FeatModel.Refine`, imported read-only).
 
-Only `_partial`: the clause "these relations survive any number of joint refinements" (`C12.refinement_partial`
-says what is proved instead) and `PartiIterative` (time-seeded, not modelled); both are covered by the oracle-only
-streams `refined` / `partitioners`.
+Only `_partial`: of the clause "these relations survive any number of joint refinements" the halo agreement, the
+injectivity and cover-once are proved for every number of refinements; `C12.refinement_partial` says what remains
+observed only.  `PartiIterative` (time-seeded) is not modelled (oracle-only stream `partitioners`).
 -/
 open FeatModel.Adj FeatModel.Parti
 
@@ -160,6 +164,48 @@ theorem C12.halo_nonempty_iff_neighbour (m : Mesh) (p : Parti) (hm : m.consisten
     obtain ⟨⟨c1, h1, h3⟩, ⟨c2, h2, h4⟩⟩ := (C12.halo_spec m p hm hp r s 0 v hc.dim_pos).mp hv
     exact ⟨hne, v, c1, c2, h1, h2, h3, h4⟩
 
+/-! ## the halo construction protocol: one `PatchHaloFactory`, rebuilt per neighbour
+
+`extract_patch` creates ONE factory and calls `build(rank)` + `make_unique()` for every neighbour in `comm_ranks`
+(discovery) order; `haloProtocol` models the per-dimension `_indices` buffers as state handed from neighbour to
+neighbour.  The driver prints the halos from this stateful run. -/
+
+/-- rebuilding clears: whatever the previous neighbour left in the buffers (`state`), `build(s)` produces exactly the
+halo of `s` in every dimension - including empty lists for the dimensions in which `r` and `s` share nothing -/
+theorem C12.halo_build_stateless (m : Mesh) (p : Parti) (r s : Nat) (state : List (List Nat)) :
+    haloFactoryBuild m p r s state = (List.range (m.dim + 1)).map (halo m p r s) :=
+  haloFactoryBuild_eq m p r s state
+
+/-- the halo mesh part stored for neighbour `s` by the protocol is `halo m p r s` in every dimension, independent of
+the neighbours processed before it -/
+theorem C12.halo_protocol_spec (m : Mesh) (p : Parti) (r s : Nat) (hs : s ∈ commRanks m p r) :
+    (haloProtocol m p r).find? (fun e => e.1 == s) = some (s, (List.range (m.dim + 1)).map (halo m p r s)) := by
+  rw [haloProtocol_eq]
+  cases h : ((commRanks m p r).map fun s => (s, (List.range (m.dim + 1)).map (halo m p r s))).find?
+      (fun e => e.1 == s) with
+  | none =>
+    rw [List.find?_eq_none] at h
+    have := h (s, (List.range (m.dim + 1)).map (halo m p r s)) (List.mem_map.mpr ⟨s, hs, rfl⟩)
+    simp at this
+  | some e =>
+    have h1 := List.find?_some h
+    have h2 := List.mem_of_find?_eq_some h
+    obtain ⟨s', _, rfl⟩ := List.mem_map.mp h2
+    have : s' = s := by simpa using h1
+    subst this
+    rfl
+
+/-- vertex-only / edge-only contacts: a dimension in which the two patches share no base entity gets an EMPTY list -/
+theorem C12.halo_empty_dim (m : Mesh) (p : Parti) (hm : m.consistent = true) (hp : p.wf = true) (r s d : Nat)
+    (hd : d < m.dim)
+    (hno : ¬ ∃ b, (∃ c, c ∈ p.row r ∧ b ∈ m.sub m.dim d c) ∧ (∃ c, c ∈ p.row s ∧ b ∈ m.sub m.dim d c)) :
+    halo m p r s d = [] := by
+  have h1 : haloBase m p r s d = [] := by
+    rw [List.eq_nil_iff_forall_not_mem]
+    intro b hb
+    exact hno ⟨b, (C12.halo_spec m p hm hp r s d b hd).mp hb⟩
+  simpa [haloBase] using h1
+
 /-! ## base-mesh mesh parts split among the patches (step 4 of `extract_patch`) -/
 
 /-- every dimension of the split mesh part, mapped to base indices, is the parent mesh part restricted to the
@@ -211,6 +257,29 @@ theorem C12.split_follows_parent (m : Mesh) (cells : List Nat) (part : List (Lis
         intro b hb
         have := h d (by omega) b hb
         simp [this]
+
+/-! ## recursive partitioning: inter-parent halos split among the child patches (`PatchHaloSplitter`) -/
+
+/-- the child halo `(a,ch) → (b,dh)` in closed form: it lists (as entities of the parent patch `a`) the entries of the
+parent halo `a → b` that lie in child `ch` and at whose halo position the entry of the halo `b → a` lies in child `dh` -/
+theorem C12.child_halo_spec (m : Mesh) (p : Parti) (childOf : List Nat) (a ch b dh d : Nat) :
+    (childHalo m p childOf a ch b dh d).map (fun i => (childTarget m (p.row a) childOf ch d).getD i 0) =
+      (List.range (halo m p a b d).length).filterMap (fun i =>
+        if ((childTarget m (p.row a) childOf ch d).contains ((halo m p a b d).getD i 0) &&
+            (decide (i < (halo m p b a d).length) &&
+              (childTarget m (p.row b) childOf dh d).contains ((halo m p b a d).getD i 0))) = true
+        then some ((halo m p a b d).getD i 0) else none) :=
+  childHalo_closed _ _ _ _ (fun x => x)
+
+/-- **the split halos of two children of neighbouring parents agree**: after split, exchange and sorted-merge
+intersection both children hold the same base-mesh entities in the same order, in every dimension -/
+theorem C12.child_halo_agree (m : Mesh) (p : Parti) (childOf : List Nat) (hm : m.consistent = true)
+    (hp : isPartition p = true) (a ch b dh d : Nat) (hab : a ≠ b) (hd : d ≤ m.dim) :
+    (childHalo m p childOf a ch b dh d).map (childToBase m p childOf a ch d) =
+      (childHalo m p childOf b dh a ch d).map (childToBase m p childOf b dh d) := by
+  have h := C12.halo_agree m p hm hp a b d hab hd
+  unfold haloBase toBase at h
+  exact childHalo_agree_of _ _ _ _ _ _ h
 
 /-! ## Parti2Lvl: exactly the requested number of non-empty patches, or a reported failure -/
 
@@ -300,18 +369,128 @@ theorem C12.parti2lvl_partition (factor lvlinc numElems numRanks : Nat) (res : P
   rw [p2lGraph_row_length numRanks lvl E hdvd r hr]
   exact hpos
 
-/-! ## refinement (partial) -/
+/-! ## the relations survive any number of joint refinements
 
-/-- The full clause "the relations survive any number of joint refinements" needs the refinement model of C10
-(`StandardRefinery` applied to mesh, patch parts and halos), which this package does not contain; the clause is
-checked on the real `refine_unique` by the oracle-only stream `refined` (depth 1-2).  Proved instead: the relations
-hold for *every* consistent mesh and partition - in particular for a refined base mesh with the refined partition
-(`m'`, `p'`); what is missing is the theorem that the refined halos / patch parts computed by `refine_unique`
-coincide with `haloBase m' p'` / `target m' (p'.row r)`. -/
-theorem C12.refinement_partial (m' : Mesh) (p' : Parti) (hm : m'.consistent = true) (hp : isPartition p' = true)
-    (r s d : Nat) (hrs : r ≠ s) (hd : d ≤ m'.dim) :
-    haloBase m' p' r s d = haloBase m' p' s r d ∧ (m'.target (p'.row r) d).Nodup :=
-  ⟨C12.halo_agree m' p' hm hp r s d hrs hd, C12.patch_injective m' p' hp r d hd⟩
+`Side.steps k` = `k` calls of `refine_unique` on the base node (base mesh by `Refine.refine`, patch part by the simple
+target refiner) and on the patch node of `r` (patch mesh by `Refine.refine`, halo by the simple target refiner);
+`partSteps` is the function the driver op `refine` executes against the real `refine_unique` (all meshes, depth 1-2). -/
+
+/-- after `k` joint refinements the halo of `r` towards `s`, mapped through the refined patch part of `r`, is the
+`k`-fold simple refinement of the coarse shared entities `haloBase m p r s` inside the base-mesh hierarchy: the
+children (of every dimension) of the shared coarse entities, in the order of the base-mesh child numbering -/
+theorem C12.halo_refined_spec (kind : FeatModel.Refine.Kind) (m : Mesh) (verts : List (List Rat)) (p : Parti)
+    (r s k : Nat) :
+    (Side.steps k (initialSide kind m verts p r s)).haloBase =
+      (partSteps k (asRefine kind m verts,
+        { targets := (List.range (m.dim + 1)).map (haloBase m p r s), topo := none })).2 := by
+  have h := (Side.steps_haloBase k _ (initialSide_ok kind m verts p r s)).1
+  rw [h, initialSide_haloBase]
+  rfl
+
+/-- **refinement survival of the interface**: after any number `k` of joint refinements the two halos `r→s` and `s→r`
+denote the same entities of the refined base mesh, in the same order, in every dimension -/
+theorem C12.halo_agree_refined (kind : FeatModel.Refine.Kind) (m : Mesh) (verts : List (List Rat)) (p : Parti)
+    (hm : m.consistent = true) (hp : isPartition p = true) (r s k : Nat) (hrs : r ≠ s) :
+    (Side.steps k (initialSide kind m verts p r s)).haloBase =
+      (Side.steps k (initialSide kind m verts p s r)).haloBase := by
+  rw [C12.halo_refined_spec, C12.halo_refined_spec]
+  have : (List.range (m.dim + 1)).map (haloBase m p r s) = (List.range (m.dim + 1)).map (haloBase m p s r) := by
+    apply List.map_congr_left
+    intro d hd
+    exact C12.halo_agree m p hm hp r s d hrs (by have := List.mem_range.mp hd; omega)
+  rw [this]
+
+/-- the refined halo refers to existing entities of the refined patch mesh, whose entity counts are the sizes of
+the refined patch part (the patch node and the base node stay aligned) -/
+theorem C12.sides_aligned_refined (kind : FeatModel.Refine.Kind) (m : Mesh) (verts : List (List Rat)) (p : Parti)
+    (r s k d : Nat) :
+    let q := Side.steps k (initialSide kind m verts p r s)
+    q.mesh.nums.getD d 0 = (q.part.target d).length ∧ ∀ i ∈ q.halo.target d, i < (q.part.target d).length := by
+  have h := (Side.steps_haloBase k _ (initialSide_ok kind m verts p r s)).2
+  exact ⟨h.nums d, h.inRange d⟩
+
+/-- **patch parts stay injective**: after `k` refinements every target set of the refined patch part of `r` is
+duplicate-free and refers to existing entities of the refined base mesh -/
+theorem C12.patch_injective_refined (kind : FeatModel.Refine.Kind) (m : Mesh) (verts : List (List Rat)) (p : Parti)
+    (hp : isPartition p = true) (hn : p.nImg = m.numCells) (r k d : Nat) :
+    let x := partSteps k (asRefine kind m verts, patchPart m (p.row r))
+    (x.2.target d).Nodup ∧ ∀ t ∈ x.2.target d, t < x.1.nums.getD d 0 := by
+  have h0 : PartOk (asRefine kind m verts) (patchPart m (p.row r)) := by
+    refine ⟨?_, ?_⟩
+    · intro s
+      simp only [patchPart]
+      rw [target_mk]
+      by_cases hs : s ≤ m.dim
+      · rw [if_pos hs]; exact C12.patch_injective m p hp r s hs
+      · rw [if_neg hs]; exact List.nodup_nil
+    · intro s t ht
+      simp only [patchPart] at ht
+      rw [target_mk] at ht
+      by_cases hs : s ≤ m.dim
+      · rw [if_pos hs] at ht
+        have e : (asRefine kind m verts).nums.getD s 0 = m.numOf s := by
+          simp only [asRefine, List.getD_eq_getElem?_getD, List.getElem?_map]
+          rw [List.getElem?_range (by omega)]
+          simp
+        rw [e]
+        rcases Nat.lt_or_eq_of_le hs with h | h
+        · rw [target_succ m _ s h, mem_deductStep] at ht
+          exact ht.1
+        · subst h
+          rw [target_dim] at ht
+          have := (isPart_of_isPartition p hp).lt r t ht
+          simpa [Mesh.numCells, hn] using this
+      · rw [if_neg hs] at ht
+        simp at ht
+  have h := partOk_steps k _ _ h0
+  exact ⟨h.nodup d, h.bound d⟩
+
+/-- **cover once survives**: after `k` joint refinements every cell of the refined base mesh occurs in exactly one
+refined patch part, exactly once (all shapes up to dimension 3) -/
+theorem C12.cover_once_refined (kind : FeatModel.Refine.Kind) (m : Mesh) (verts : List (List Rat)) (p : Parti)
+    (hp : isPartition p = true) (hn : p.nImg = m.numCells) (hd : m.dim ≤ 3) (k x : Nat)
+    (hx : x < (partSteps k (asRefine kind m verts, patchPart m (p.row 0))).1.nums.getD m.dim 0) :
+    ((List.range p.nDom).map fun r =>
+      ((partSteps k (asRefine kind m verts, patchPart m (p.row r))).2.target m.dim).count x).sum = 1 := by
+  have h0 : Cover (asRefine kind m verts) (fun r => patchPart m (p.row r)) p.nDom := by
+    intro c hc
+    have e : (asRefine kind m verts).nums.getD (asRefine kind m verts).dim 0 = m.numCells := by
+      simp only [asRefine, List.getD_eq_getElem?_getD, List.getElem?_map]
+      rw [List.getElem?_range (by omega)]
+      simp [Mesh.numCells]
+    rw [e, ← hn] at hc
+    have := C12.cover_once m p hp c hc
+    rw [← this]
+    apply congrArg
+    apply List.map_congr_left
+    intro r _
+    simp only [patchPart]
+    rw [target_mk, if_pos (show (asRefine kind m verts).dim ≤ m.dim from Nat.le_refl _)]
+    rfl
+  have h := cover_steps k _ _ p.nDom (show (asRefine kind m verts).dim ≤ 3 from hd) h0
+  have hkd := partSteps_kind_dim k (asRefine kind m verts) (patchPart m (p.row 0))
+  have := h x (by rw [hkd.2]; exact hx)
+  rw [hkd.2] at this
+  exact this
+
+/-- What is still only observed (stream `refined`, model == implementation and oracle on depth 1-2): that the refined
+patch mesh is again the `PatchMeshFactory` image of the refined base mesh under the refined patch part (index sets and
+coordinates), hence that the entity list of `C12.halo_refined_spec` is the *complete* set of entities the refined
+patches of `r` and `s` share, and that 'sharing a vertex' is unchanged by refinement.  Proved (this theorem collects
+it): for every `k` the two refined halos are the same list of refined base entities, the refined patch parts are
+injective, and the refined patch cells cover the refined base mesh exactly once. -/
+theorem C12.refinement_partial (kind : FeatModel.Refine.Kind) (m : Mesh) (verts : List (List Rat)) (p : Parti)
+    (hm : m.consistent = true) (hp : isPartition p = true) (hn : p.nImg = m.numCells) (hd : m.dim ≤ 3)
+    (r s k : Nat) (hrs : r ≠ s) :
+    (Side.steps k (initialSide kind m verts p r s)).haloBase =
+        (Side.steps k (initialSide kind m verts p s r)).haloBase ∧
+    (∀ d, ((partSteps k (asRefine kind m verts, patchPart m (p.row r))).2.target d).Nodup) ∧
+    (∀ x, x < (partSteps k (asRefine kind m verts, patchPart m (p.row 0))).1.nums.getD m.dim 0 →
+      ((List.range p.nDom).map fun r' =>
+        ((partSteps k (asRefine kind m verts, patchPart m (p.row r'))).2.target m.dim).count x).sum = 1) :=
+  ⟨C12.halo_agree_refined kind m verts p hm hp r s k hrs,
+   fun d => (C12.patch_injective_refined kind m verts p hp hn r k d).1,
+   fun x hx => C12.cover_once_refined kind m verts p hp hn hd k x hx⟩
 
 /-! ## the hypotheses are satisfiable by non-trivial values -/
 
